@@ -106,7 +106,7 @@ func init() {
 			})
 		})
 	register("C07",
-		"Decides, for all configured periods: a lookup in hit-for-pass state is never queued and never served a response; the marker always gets a period >= 1 (the default when the configured one is <= 0) added to the clock; it lapses through the same expiry test as hits, and that test keeps the entry through its expiry second (expired iff expiredAt < now), so the period is not cut short; the configured period is converted per cache (no value carried over from the previous cache's conversion), is what the fetcher passes and is kept in seconds (never a time.Duration squeezed into the int); the record is saved only after the entry's final state is set, and always when a store is configured (a marker without a response included), with a store lifetime that is never known to be <= 0; non-fetcher requests never complete (extend) the entry; hit-for-pass requests are forwarded once and reach the upstream with their headers untouched; no lock of the server is held across the upstream call; the upstream transport puts no cap on connections per host or streams per connection (forwarded requests do not queue behind one another inside net/http). Every entry is built with a lock allocated for it and no entry is ever copied as a value, so requests on one key queue only behind that key. Outside the purge nothing deletes a persisted record (no eviction hook takes the marker's stored copy with it). The marker's default period is used only where the period passed in is known to be <= 0, and the converter hands the configured seconds on as parsed. Timed histories are not decided.",
+		"Decides, for all configured periods: a lookup in hit-for-pass state is never queued and never served a response; the marker always gets a period >= 1 (the default when the configured one is <= 0) added to the clock; it lapses through the same expiry test as hits, and that test keeps the entry through its expiry second (expired iff expiredAt < now), so the period is not cut short; the configured period is converted per cache (no value carried over from the previous cache's conversion), is what the fetcher passes and is kept in seconds (never a time.Duration squeezed into the int); the record is saved only after the entry's final state is set, and always when a store is configured (a marker without a response included), with a store lifetime that is never known to be <= 0; non-fetcher requests never complete (extend) the entry; hit-for-pass requests are forwarded once and reach the upstream with their headers untouched; no lock of the server is held across the upstream call; the upstream transport puts no cap on connections per host or streams per connection (forwarded requests do not queue behind one another inside net/http). Every entry is built with a lock allocated for it and no entry is ever copied as a value, so requests on one key queue only behind that key. Outside the purge nothing deletes a persisted record (no eviction hook takes the marker's stored copy with it). The marker's default period is used only where the period passed in is known to be <= 0, and the converter hands the configured seconds on as parsed. On every successful path the fetcher's upstream answer is examined for a lifetime, whatever headers the request carried. Timed histories are not decided.",
 		nil, func(c *Ctx) {
 			withAnchors(c, func(a *serverAnchors) {
 				ruleLookup(c, a.cacheA, set("state-determined", "registration", "hit-data", "expiry-applied", "expiry-exact", "invariant-expiry", "returned-status"))
@@ -162,7 +162,7 @@ func init() {
 			})
 		})
 	register("C10",
-		"Decides that store failures cannot reach clients or strand waiters: a failed, truncated or impossible record leaves the live entry untouched (all-or-nothing adoption) and the lookup continues as a miss; every completion path drains the waiters and sets the state whatever the store write returns; the fetcher's ticket is always discharged; whatever expiry a restored record carries goes through the same expiry test as any entry (no sign or value of it is exempt); the record decoders contain no panicking-by-contract call, explicit panic or unchecked data-sized allocation and every index / fixed-width read is provably inside the data (a panic under the entry lock would wedge the key); a purge deletes the persisted record while still holding the shard lock and never takes the entry lock; the lookup never writes to the store (memory hits do not wait for it); a store constructor hands out a store only with a nil error; the loader calls nothing that takes an entry lock. NewStore returns its lock on every path (an open that fails does not wedge the next one), and the error of opening a store reaches no result, branch or panic of package main: the rest of an update is applied whatever the store does. The record reader consumes the same sequence of elements on every successful path, so a block that is not decoded is still skipped and a good record cannot be misread into an immortal expiry. The header block is decoded by a whole-input decoder (a block damaged after its first value is a miss), and no decoder asserts a type without the comma-ok form. Slow calls and flipped body bits are not decided.",
+		"Decides that store failures cannot reach clients or strand waiters: a failed, truncated or impossible record leaves the live entry untouched (all-or-nothing adoption) and the lookup continues as a miss; every completion path drains the waiters and sets the state whatever the store write returns; the fetcher's ticket is always discharged; whatever expiry a restored record carries goes through the same expiry test as any entry (no sign or value of it is exempt); the record decoders contain no panicking-by-contract call, explicit panic or unchecked data-sized allocation and every index / fixed-width read is provably inside the data (a panic under the entry lock would wedge the key); a purge deletes the persisted record while still holding the shard lock and never takes the entry lock; the lookup never writes to the store (memory hits do not wait for it); a store constructor hands out a store only with a nil error; the loader calls nothing that takes an entry lock. NewStore returns its lock on every path (an open that fails does not wedge the next one), and the error of opening a store reaches no result, branch or panic of package main: the rest of an update is applied whatever the store does. The record reader consumes the same sequence of elements on every successful path, so a block that is not decoded is still skipped and a good record cannot be misread into an immortal expiry. The header block is decoded by a whole-input decoder (a block damaged after its first value is a miss), and no decoder asserts a type without the comma-ok form. A reload keeps every surviving cache (and what it holds in memory) whatever its store did, and the caches are reset before the servers that name them. Slow calls and flipped body bits are not decided.",
 		nil, func(c *Ctx) {
 			withAnchors(c, func(a *serverAnchors) {
 				ruleStoreLoadAtomic(c, a.cacheA)
@@ -188,6 +188,8 @@ func init() {
 				ruleStoreOpenErrorLocal(c)
 				ruleLayout(c)
 				ruleDecodersWholeInput(c)
+				ruleKeepCache(c)
+				ruleSectionsApplied(c)
 			})
 		})
 	register("C06",
@@ -252,7 +254,7 @@ func init() {
 			})
 		})
 	register("C05",
-		"Decides label/bytes agreement and provenance on every path: each encoding label handed to a client is paired with the stored variant of that coding, the raw body, or a transcode of the raw body; the raw body is RawBody, else gunzip(GzipBody), else brotli-decode(BrBody); upstream bodies are filed under exactly the variant their encoding names and every other documented encoding is decoded by its own codec; Fill writes label, body, status and header of one negotiation and, after merging the stored header, sets nothing but Content-Encoding; the stored header is a deep copy minus only the fields pike recomputes; pre-compression drops the raw body only when both variants exist; the lz4 destination covers the format's maximum expansion; the five content-coding constants carry the documented wire names; the upstream transport and the client-facing server set no header-size cap or read/write deadline that would replace the upstream's answer; the cache key keeps the request method, so a body-less answer to HEAD is never what a GET is served. After the upstream has answered, the proxy handler returns no error of its own before the response is built. A stored compressed variant is only ever set, never cleared (the raw body may already be gone). Byte-identity of codec round trips is not decidable statically.",
+		"Decides label/bytes agreement and provenance on every path: each encoding label handed to a client is paired with the stored variant of that coding, the raw body, or a transcode of the raw body; the raw body is RawBody, else gunzip(GzipBody), else brotli-decode(BrBody); upstream bodies are filed under exactly the variant their encoding names and every other documented encoding is decoded by its own codec; Fill writes label, body, status and header of one negotiation and, after merging the stored header, sets nothing but Content-Encoding; the stored header is a deep copy minus only the fields pike recomputes; pre-compression drops the raw body only when both variants exist; the lz4 destination covers the format's maximum expansion; the five content-coding constants carry the documented wire names; the upstream transport and the client-facing server set no header-size cap or read/write deadline that would replace the upstream's answer; the cache key keeps the request method, so a body-less answer to HEAD is never what a GET is served. After the upstream has answered, the proxy handler returns no error of its own before the response is built. A stored compressed variant is only ever set, never cleared (the raw body may already be gone). Between the upstream call and the building of the response the proxy step deletes or overwrites nothing in the upstream's response header. Byte-identity of codec round trips is not decidable statically.",
 		nil, func(c *Ctx) {
 			withAnchors(c, func(a *serverAnchors) {
 				ruleDecisionTable(c)
@@ -302,7 +304,7 @@ func init() {
 			})
 		})
 	register("C12",
-		"Decides stream finalisation order (the compressing writer is closed on every successful path and the buffer is not read before that), level clamping for every int (the value reaching gzip.NewWriterLevel is in [-2,9], brotli's in [0,11]), propagation of every codec library error, the lz4 destination bound (a short-buffer failure is final only at 255 x input) that the lz4 retry loop has a feasible exit while the short-buffer error persists (no hang on malformed blocks), the decoder dispatch, that pike's own decoder code has no Must* call, explicit panic, allocation sized by an unchecked number taken from the stream or index that is not provably inside the data, that the five decoders are reached under the documented wire names, and that the zstd decoder is built without options that reject valid frames or whose value is taken from the machine (GOMAXPROCS, environment), that encoders write into an empty buffer, and that the stream decoders share no mutable package-level state. On every successful path a stream encoder hands its writer the input parameter itself, exactly once (no pieces cut by computed offsets). No codec library call is handed the same buffer as source and destination. No decoder asserts a type without the comma-ok form; the compressing writers write into a growing bytes.Buffer. That the codec libraries are exact inverses for every byte string and themselves never panic on malformed input is behaviour of third-party code: not applicable to static analysis.",
+		"Decides stream finalisation order (the compressing writer is closed on every successful path and the buffer is not read before that), level clamping for every int (the value reaching gzip.NewWriterLevel is in [-2,9], brotli's in [0,11]), propagation of every codec library error, the lz4 destination bound (a short-buffer failure is final only at 255 x input) that the lz4 retry loop has a feasible exit while the short-buffer error persists (no hang on malformed blocks), the decoder dispatch, that pike's own decoder code has no Must* call, explicit panic, allocation sized by an unchecked number taken from the stream or index that is not provably inside the data, that the five decoders are reached under the documented wire names, and that the zstd decoder is built without options that reject valid frames or whose value is taken from the machine (GOMAXPROCS, environment), that encoders write into an empty buffer, and that the stream decoders share no mutable package-level state. On every successful path a stream encoder hands its writer the input parameter itself, exactly once (no pieces cut by computed offsets). No codec library call is handed the same buffer as source and destination. No decoder asserts a type without the comma-ok form; the compressing writers write into a growing bytes.Buffer. Every error a stream decoder returns is the codec library's own (no check of pike's is added behind it). That the codec libraries are exact inverses for every byte string and themselves never panic on malformed input is behaviour of third-party code: not applicable to static analysis.",
 		nil, func(c *Ctx) {
 			ruleEncoders(c)
 			ruleLevelApplied(c)
@@ -321,6 +323,7 @@ func init() {
 			ruleDecodersNoPanic(c, map[string]bool{"compress": true})
 			ruleDecoderBounds(c, map[string]bool{"compress": true})
 			ruleCodecNoAlias(c)
+			ruleDecodersNoPostFilter(c)
 		})
 	register("C09",
 		"Decides writer/reader layout agreement for both record types (element kinds, widths, order and the field each element belongs to, every variable-length element preceded by its own length), that every read is bounded (fixed-width reads fail on short input, variable reads are checked against 0 and the remaining length), that no allocation in a decoder is sized by record data and no decoder calls a panicking-by-contract function (Must*) on record data, that every index and fixed-width byte-order read in a decoder is inside the data by the comparisons made before it, that the loader accepts every record the completions write (adoption depends only on status, expiry and, for a hit, the presence of a response, not on its content; markers with and without a response are taken), that a record cut anywhere fails to decode (the tail is a checked read), that encoded records are freshly allocated, that integer writers and readers agree on width and byte order, that the persisted status numbers are the ones records on disk carry, that String() of a decoded status cannot index outside its table, that a record saved without a content-type filter is restored without one, and that decoding keeps no package-level state (the same record always decodes the same way). What the writer marshals is the entry's field as it stands, and the reader puts no constant of its own into a decoded field. Every successful writer path emits, and every successful reader path consumes, the same sequence of elements (no element is conditional on one side only). The reader puts no package-level object into a decoded field and decodes the header block with a decoder that rejects trailing bytes. Exact value round-trip of contents (e.g. JSON re-encoding of non-UTF-8 header values) is value semantics of libraries and not decided.",
@@ -374,6 +377,8 @@ func init() {
 				ruleRewriteSource(c)
 				ruleRewriteChain(c)
 				ruleRewriteOrdered(c)
+				ruleIngest(c)
+				ruleContextKeys(c, a)
 				ruleMergeUnconditional(c)
 				ruleWildcardGroup(c)
 				ruleConfigValueVerbatim(c)
@@ -382,7 +387,7 @@ func init() {
 			})
 		})
 	register("C16",
-		"Decides that the two ways a configuration reaches a running object agree: NewServer and Update compute the same value from the option for every field both assign (only the documented restart-only fields are construction-only); main.update applies every section of the configuration just read, each referenced section before the ones that name it, and then starts the servers; every registry's reset removes names that disappeared (or replaces the collection wholesale) on every path, an empty configuration included, and the shared delete helper visits every key; surviving caches are kept; persistent stores are closed only by package store (they are registry singletons that are never re-opened); every configured upstream and compress profile is replaced by one freshly built from the new options; only instances no longer in service are destroyed; removed servers are closed; the proxy resolves the server's locations, and the cache middleware the server's cache, per request (nothing captured when the handler was built); a server is marked as listening only after net.Listen succeeded, so a failed start is retried by the next update; starting the server list visits and starts every registered server; closing a listening server clears that flag, stops the handler that actually serves (GracefulClose, or shutting down the http.Server it runs in) and closes the listener; the package-level entry points main.update calls hand the configuration, converted by the package's converter, to the one default registry. The file watcher recognises a write by masking the event's bit set, calls back on every write event and leaves its loop only when the watcher is closed. Whether a registry entry is removed on an update is decided by its name alone (an entry still configured is updated in place, never rebuilt); a submitted configuration is decoded into an empty value, so what is saved depends on the submission and not on what was stored before. config.Watch passes every change event on to the caller's callback (no filter of its own); no registry reset edits the option list it is walking. Differential behaviour of two live processes and in-flight requests during the swap are not decided.",
+		"Decides that the two ways a configuration reaches a running object agree: NewServer and Update compute the same value from the option for every field both assign (only the documented restart-only fields are construction-only); main.update applies every section of the configuration just read, each referenced section before the ones that name it, and then starts the servers; every registry's reset removes names that disappeared (or replaces the collection wholesale) on every path, an empty configuration included, and the shared delete helper visits every key; surviving caches are kept; persistent stores are closed only by package store (they are registry singletons that are never re-opened); every configured upstream and compress profile is replaced by one freshly built from the new options; only instances no longer in service are destroyed; removed servers are closed; the proxy resolves the server's locations, and the cache middleware the server's cache, per request (nothing captured when the handler was built); a server is marked as listening only after net.Listen succeeded, so a failed start is retried by the next update; starting the server list visits and starts every registered server; closing a listening server clears that flag, stops the handler that actually serves (GracefulClose, or shutting down the http.Server it runs in) and closes the listener; the package-level entry points main.update calls hand the configuration, converted by the package's converter, to the one default registry. The file watcher recognises a write by masking the event's bit set, calls back on every write event and leaves its loop only when the watcher is closed. Whether a registry entry is removed on an update is decided by its name alone (an entry still configured is updated in place, never rebuilt); a submitted configuration is decoded into an empty value, so what is saved depends on the submission and not on what was stored before. config.Watch passes every change event on to the caller's callback (no filter of its own); no registry reset edits the option list it is walking. No registry reset waits (for the graceful close of a removed server, say) before the rest is applied, and the published location list is not built by walking a map. Differential behaviour of two live processes and in-flight requests during the swap are not decided.",
 		nil, func(c *Ctx) {
 			ruleCtorUpdateAgree(c)
 			ruleConverters(c)
@@ -411,6 +416,8 @@ func init() {
 			ruleSaveDecodesFresh(c)
 			ruleWatchForwardsCallback(c)
 			ruleResetInputReadOnly(c)
+			ruleResetDoesNotWait(c)
+			ruleSetPublishesAll(c)
 		})
 	register("C19",
 		"Decides pike's wiring of the health-checked pool (the pool itself lives in the dependency github.com/vicanso/upstream): servers marked backup are registered as backups and only those, each with its own address; policy and ping path reach the pool exactly as configured (the converter copies them unedited); a health check runs before a pool is published and periodically after; a reload never stops the health check of an instance that stays in service; pike never writes into or appends onto the server list the pool hands out; the upstream transport uses no environment proxy; a wrapper around the reverse proxy always calls it; the proxy target is only what the pool's Next() returned (no fixed target is configured, and the picker asks the pool for nothing else, so no request runs or waits for a health check) and 'no healthy server' is a 5xx error. The upstream transport's dialer carries only relative limits (no absolute deadline fixed when the upstream is built), so a server that recovers can be connected to again. Every error the proxy step makes up itself has a 5xx status. The fault-sequence quantifier (up/down timing, recovery, even distribution) is run-time behaviour of the dependency and the network: not applicable.",
@@ -436,7 +443,7 @@ func init() {
 			})
 		})
 	register("C17",
-		"Decides that Validate runs field validation first and checks each of the four reference relations on exactly the (referrer field, referenced name) pair, per referrer, returning its error; that a reference whose run-time lookup can come back nil (the server's cache, the location's upstream) cannot be left empty in an accepted configuration; that the run-time lookups go to the same default registries the reload fills and are made per request with the server's current settings; that each configuration back end reads, writes and watches one and the same location, writes the bytes it is given, and that Read decodes the bytes it read into the configuration it returns; that Write stores the YAML of the configuration only after Validate returned nil, unedited in between, and never reports success without writing; that no configuration field is lost or merged by the YAML/JSON field table, the YAML key of every field is its documented (JSON) key and the shipped pike.yml uses known keys only; that the admin handlers write configuration entries back only as copies of the entries they annotate; that a path accepted by the path validator starts with '/'; that lists of validated structs are validated element-wise (dive) and Validate never reports success from inside one of its loops; that no back-end method rewrites the configured location before using it; that every validate tag is registered and every place that leniently parses a configuration field uses the parser its validator uses (including a value the upstream library parses on pike's behalf). In tags and aliases no bound or custom rule is one side of an \"or\" (the bound would not be enforced); a validator runs no second parser its consumers do not run. Nothing is decoded over the configuration between its validation and the write; applying a configuration publishes one location for each it was given. A list of configuration entries the admin view rebuilds is allocated with the length of the list it replaces; a server's update applies the same fields its constructor takes. Quoting behaviour of the YAML library is not decided.",
+		"Decides that Validate runs field validation first and checks each of the four reference relations on exactly the (referrer field, referenced name) pair, per referrer, returning its error; that a reference whose run-time lookup can come back nil (the server's cache, the location's upstream) cannot be left empty in an accepted configuration; that the run-time lookups go to the same default registries the reload fills and are made per request with the server's current settings; that each configuration back end reads, writes and watches one and the same location, writes the bytes it is given, and that Read decodes the bytes it read into the configuration it returns; that Write stores the YAML of the configuration only after Validate returned nil, unedited in between, and never reports success without writing; that no configuration field is lost or merged by the YAML/JSON field table, the YAML key of every field is its documented (JSON) key and the shipped pike.yml uses known keys only; that the admin handlers write configuration entries back only as copies of the entries they annotate; that a path accepted by the path validator starts with '/'; that lists of validated structs are validated element-wise (dive) and Validate never reports success from inside one of its loops; that no back-end method rewrites the configured location before using it; that every validate tag is registered and every place that leniently parses a configuration field uses the parser its validator uses (including a value the upstream library parses on pike's behalf). In tags and aliases no bound or custom rule is one side of an \"or\" (the bound would not be enforced); a validator runs no second parser its consumers do not run. Nothing is decoded over the configuration between its validation and the write; applying a configuration publishes one location for each it was given. A list of configuration entries the admin view rebuilds is allocated with the length of the list it replaces; a server's update applies the same fields its constructor takes. Every iteration of Validate's loop over the servers runs its reference checks. Quoting behaviour of the YAML library is not decided.",
 		nil, func(c *Ctx) {
 			ruleValidateRefs(c)
 			ruleRequiredRefs(c)
@@ -460,6 +467,7 @@ func init() {
 			ruleBoundsConjunctive(c)
 			ruleSetPublishesAll(c)
 			ruleStatusListSizedBySource(c)
+			ruleValidateEveryServer(c)
 			ruleCtorUpdateAgree(c)
 		})
 	register("C20",
